@@ -87,7 +87,7 @@ def run(ctx, rep):
     from rules.C10 import borrow
     rep.rule("C07.f", "changed files are re-read: the parent match compares type, size, mtime and ctime; reuse only of indexed content (from C11)")
     n_ = borrow(rep, ctx, C11, lambda o: o.rule in ("C11.a", "C11.b"), "C07.f")
-    rep.floor("C07.f", "borrowed obligations", n_, 6)
+    rep.floor("C07.f", "borrowed obligations", n_, 4)
     from rules import typedid
     typedid.run(ctx, rep, "C07.a", owners=["index::indexer::Indexer.indexed"])
     # the set of blobs written in this run survives intermediate index flushes: Indexer::reset does not touch `indexed`
